@@ -37,8 +37,9 @@ guard `half_double` / `mid_ge` fail exactly at `−max_value` and `mid_notNaN` a
 a textbook property of round-to-nearest.  PROVED: the laws for exact arithmetic
 (`halfAddLaws_of_fieldLaws`, `Lemmas/WeightedExact.lean`), so the theorems are not vacuous (ℚ, below).
 
-NOT proved: anything for Ward on floats (its `ChainReducible` is false under rounding: the sampler
-finds counterexamples on the moderate domain too).
+Ward: its `ChainReducible` was false under rounding (the sampler found counterexamples on the moderate
+domain too) until the second `fix:` commit of the crate (guarded clamp of the quotient from below); it
+is now a theorem for every `OrderLaws α`, see `Props/C01Ward.lean`.
 -/
 import Kodama.Props.C01
 import Kodama.Lemmas.WeightedExact
